@@ -664,6 +664,13 @@ def c015(ctx):
         ok = any(s["k"] == "field" and s["f"] == "biggest_timestamp" for s in srcs) and any(s["k"] == "call" and s["callee"].endswith("cmp::max") for s in srcs)
         # the same maximum as an iterator chain: `levels.iter().flat_map(|l| l.ssts.iter()).map(|f| f.biggest_timestamp).max()`
         mx = P.call_points(f, r"Iterator>?::(max|max_by_key|max_by)$")
+        # `.fold(0, std::cmp::max)` / `.fold(0, |a, b| a.max(b))`
+        for p_ in P.call_points(f, r"Iterator>?::fold$"):
+            t_ = P.term_at(f, p_)
+            fn_item = any(a_.get("k") == "const" and re.search(r"cmp::(max|Ord::max)$|::max$", strip_generics((a_.get("c") or {}).get("fn") or "")) for a_ in t_["args"])
+            in_cl = any(P.call_points(c_, r"cmp::max$|Ord>?::max$|::max$") for c_ in ctx.prog.closures_of(f))
+            if fn_item or in_cl:
+                mx.append(p_)
         cls = ctx.prog.closures_of(f)
         reads = lambda fld: any(any(isinstance(e, dict) and e.get("f") == fld for st_ in b_.st if st_["s"] == "=" for pl_ in ((st_["rv"].get("pl") or {}), ((st_["rv"].get("a") or {}).get("pl") or {})) for e in pl_.get("p", []))
                                 for g_ in [f] + cls for b_ in g_.blocks)
